@@ -574,6 +574,7 @@ class Function:
         return a.fields[-1] if a.fields else ''
 
     def mem_accesses(self, field=None, ops=('load', 'store', 'cmpxchg', 'atomicrmw')):
+        self.mod.check_fields(field)
         out = []
         for ins in self.order:
             if ins.op in ops:
@@ -773,6 +774,24 @@ class Module:
 
     def fn(self, name):
         return self.functions.get(name)
+
+    def check_fields(self, field):
+        """a rule that names a struct field which the compiled program does not have is broken
+        (typo or renamed/removed anchor): never silently match nothing"""
+        if field is None:
+            return
+        names = [field] if isinstance(field, str) else list(field)
+        for n in names:
+            if '.' not in n:
+                continue
+            sname, fname = n.split('.', 1)
+            st = self.structs.get(sname)
+            if st is None:
+                from .frontend import AnalysisBroken
+                raise AnalysisBroken('rule refers to struct %s which does not exist in %s' % (sname, self.tag))
+            if not any(f['name'] == fname for f in st['fields']):
+                from .frontend import AnalysisBroken
+                raise AnalysisBroken('rule refers to field %s which does not exist in %s' % (n, self.tag))
 
     def struct_field(self, sname, fname):
         s = self.structs.get(sname)
